@@ -241,6 +241,58 @@ def gen_table(rng, r, c, us):
     return [[gen_safe(rng, us[j] if us else 1.0) for j in range(c)] for _ in range(r)]
 
 
+BLOCKS = [512, 1024, 4096, 8192, 16384, 65536]     # common stream / page / read-buffer sizes
+
+
+def pad_header(n):
+    """a header of exactly n >= 1 characters: '#'-lines of at most 7999 characters (ignore(10000,'\\n') skips each)"""
+    lines, rem = [], n
+    while rem > 8000:
+        lines.append("#" + "p" * 7998)
+        rem -= 8000
+    lines.append("#" + "p" * (rem - 1))
+    return "\n".join(lines)
+
+
+def table_body(t, us):
+    """bytes Export_Table writes after the header (default stream format = %g of the double quotient)"""
+    return "\n".join("\t".join("%g" % (x / (us[j] if us else 1.0)) for j, x in enumerate(row)) for row in t)
+
+
+def size_targeted(rng, thorough):
+    """round trips whose file size is k*B, k*B-1, k*B+1, or has a line feed exactly on a block boundary"""
+    R = []
+    for B in BLOCKS:
+        variants = [("size", d) for d in (-1, 0, 1)] + [("hdrnl", d) for d in (-1, 0)] + [("rownl", d) for d in (-1, 0)]
+        for (kind, d) in variants:
+            for rep in range(2 if thorough else 1):
+                r, c = rng.randint(1, 12), rng.randint(1, 4)
+                if B >= 16384 and rng.random() < 0.5:
+                    r, c = rng.randint(100, 200), 12          # files of 16384/32768/65536 bytes inside the 200 x 12 domain
+                us = [] if rng.random() < 0.5 else [gen_unit(rng) for _ in range(c)]
+                t = gen_table(rng, r, c, us)
+                body = table_body(t, us)
+                if kind == "size":          # header + '\n' + body has k*B + d bytes
+                    k = max(1, -(-(len(body) + 2 - d) // B))
+                    n = k * B + d - 1 - len(body)
+                elif kind == "hdrnl":       # the header's line feed is the last byte of a block / the first of the next
+                    n = B + d
+                else:                       # the line feed after the first data row
+                    row0 = body.split("\n")[0]
+                    k = max(1, -(-(len(row0) + 2 - d) // B))
+                    n = k * B + d - 1 - len(row0)
+                if n < 1:
+                    continue
+                R.append("c20.rttable %s %s %s" % (enhex(pad_header(n)), lst(us), tbl(t)))
+        # Export_List ends with a line feed: total size k*B
+        u = gen_unit(rng)
+        xs = [gen_safe(rng, u) for _ in range(rng.randint(1, 30))]
+        body = "".join("%g\n" % (x / u) for x in xs)
+        k = max(1, -(-(len(body) + 2) // B))
+        R.append("c20.rtlist %s %s %s" % (enhex(pad_header(k * B - 1 - len(body))), hx(u), lst(xs)))
+    return R
+
+
 def fmt_g(x):
     return "%g" % x
 
@@ -274,6 +326,7 @@ def generate(tier, seed, ctx):
     for (r, c) in shapes:
         us = [] if rng.random() < 0.3 else [gen_unit(rng) for _ in range(c)]
         R.append("c20.rttable %s %s %s" % (enhex(rng.choice(HEADERS)), lst(us), tbl(gen_table(rng, r, c, us))))
+    R += size_targeted(rng, thorough)
     for k in range(60 if thorough else 24):   # guards, ragged rows, empty rows
         r, c = rng.randint(1, 6), rng.randint(1, 5)
         kind = k % 4
@@ -727,6 +780,10 @@ def compare(rq, impl, model, ctx):
         t, _ = read_table(rest, fl)
         bi, bm = unhex(ti[0]), unhex(tm[0])
         hl_ = h.count("\n") + 1 if h else 0
+        for B_ in BLOCKS:
+            if len(bi) and len(bi) % B_ == 0:
+                bump(ctx, "file size multiple of %d" % B_)
+                ctx["nontrivial"].add(("rttable-size", B_, len(bi) // B_))
         nonempty = [r for r in t if r]
         cmp_bytes(bi, bm, hl_, lambda i, j: (nonempty[i][j], us[j] if us else 1.0) if i < len(nonempty) and j < len(nonempty[i]) else None,
                   "Export_Table", out, ctx)
@@ -1384,7 +1441,7 @@ def compare_units(op, a, model, ctx):
                                 "unit constant read after start-up differs from the value of its defining expression (build %s)" % b,
                                 "%s = %r, defining expression = %s" % (name, v, mpmath.nstr(mpmath.mpf(ref.numerator) / ref.denominator if isinstance(ref, Fraction) else ref, 17))))
             ctx["nontrivial"].add(("unit", name, b))
-        return out
+        return out + py_definition_check(name, ctx)
     if op == "c20.ident":
         lhs, expr = tm[0], tm[1:]
         for b, res in B.items():
@@ -1405,12 +1462,81 @@ def compare_units(op, a, model, ctx):
     return out
 
 
+def eval_tr(e, vals):
+    """value of a translator expression tree on a build's own constants (exact where rational, mpmath otherwise)"""
+    import mpmath
+    mpmath.mp.prec = 400
+
+    def to_mp(v):
+        return mpmath.mpf(v.numerator) / mpmath.mpf(v.denominator) if isinstance(v, Fraction) else v
+    k = e[0]
+    if k == "lit":
+        return Fraction(e[1])
+    if k == "ref":
+        return Fraction(vals[e[1]])
+    if k == "pi":
+        return mpmath.pi + 0
+    if k == "neg":
+        return -eval_tr(e[1], vals)
+    if k in ("add", "sub", "mul", "div"):
+        x, y = eval_tr(e[1], vals), eval_tr(e[2], vals)
+        if not (isinstance(x, Fraction) and isinstance(y, Fraction)):
+            x, y = to_mp(x), to_mp(y)
+        return x + y if k == "add" else x - y if k == "sub" else x * y if k == "mul" else x / y
+    if k == "powi":
+        return eval_tr(e[1], vals) ** e[2]
+    if k == "sqrt":
+        return mpmath.sqrt(to_mp(eval_tr(e[1], vals)))
+    if k == "powr":
+        return mpmath.power(to_mp(eval_tr(e[1], vals)), to_mp(eval_tr(e[2], vals)))
+    raise ValueError(k)
+
+
+def unit_defs(ctx):
+    if "c20_defs" not in ctx:
+        try:
+            ctx["c20_defs"] = dict(units_tr.translate(ctx["repo"]))
+        except Exception:
+            ctx["c20_defs"] = {}
+    return ctx["c20_defs"]
+
+
+def py_definition_check(name, ctx):
+    """every constant equals its defining expression evaluated on the SAME build's own constants, and is a usable unit
+    (finite, non-zero: In_Units(x*u, u) == x needs it) — needs neither the Lean model nor the driver"""
+    out = []
+    e = unit_defs(ctx).get(name)
+    if e is None:
+        return out
+    for b, res in builds(ctx).items():
+        if "error" in res or name not in res["values"]:
+            continue
+        v = res["values"][name]
+        if v == 0 or math.isnan(v) or math.isinf(v):
+            out.append(fail("prop", "unit constant is zero or not finite after start-up: In_Units cannot undo multiplication by it (build %s)" % b,
+                            "%s = %r in the %s build" % (name, v, b)))
+            continue
+        try:
+            vals = {k_: x for k_, x in res["values"].items() if not (math.isnan(x) or math.isinf(x))}
+            rhs = eval_tr(e, vals)
+        except (KeyError, ZeroDivisionError):
+            continue
+        if not rel_close(v, rhs, K_VAL):
+            import mpmath
+            out.append(fail("prop", "derived unit differs from its defining product of base constants (build %s)" % b,
+                            "%s = %r in the %s build, its defining expression on that build's constants = %s" % (
+                                name, v, b, mpmath.nstr(mpmath.mpf(rhs.numerator) / rhs.denominator if isinstance(rhs, Fraction) else rhs, 17))))
+    return out
+
+
 def oracle_only(rq, impl, ctx):
     """proofs broken: still look for a concrete failing input on the implementation"""
     op = rq.split(" ", 1)[0]
     a = rq.split()[1:]
     if op == "c20.units":
         return py_identities(ctx)
+    if op == "c20.unit":
+        return py_definition_check(a[0], ctx)
     if op in ("c20.rtfuncL", "c20.rtfuncG"):
         return func_rt_check(op, a, impl)
     if tag(impl) != "ok":
